@@ -28,9 +28,11 @@ def run(rep: Report, repo: Repo):
     grammar_facts(rep, mod, G, gnode)
     accumulation(rep, mod, methods)
     triples(rep, mod, methods)
-    polarity(rep, mod)
+    evaluated = annotation_evaluated(rep, repo, mod)
+    if not evaluated:
+        polarity(rep, mod)     # structural forms of what the evaluation decides (used when the code is outside the evaluator subset)
+        pins(rep, mod)
     shape(rep, mod)
-    pins(rep, mod)
 
 
 def grammar_facts(rep, mod, G, gnode):
@@ -255,6 +257,129 @@ def pins(rep, mod):
     rep.ob('C14.pin', 'interconnects: instance/pin split of both endpoints', ok)
     if not ok:
         rep.violate('C14.pin', mod, g, "n.split('/')", 'interconnects must split both endpoints into (instance, pin) at "/"', node=g)
+
+
+def annotation_evaluated(rep, repo, mod):
+    """DelayFile.iopaths and DelayFile.interconnects evaluated (Engine M) on stand-in circuits: which line receives which delay
+    triples at which input polarity, for escaped / bracketed instance names, edge qualifiers, empty triples, unconnected pins, unknown
+    instances, branch forks present / absent / shared."""
+    from kvstatic import minieval
+    NS = minieval.NS
+    rep.rule('C14.landing', 'iopaths / interconnects store every delay entry of the file at the line of the named pin (branch-fork input for interconnects), '
+                            'at the qualified input polarity, with empty triples as 0 - evaluated on stand-in circuits; nothing else is written')
+
+    def L(tag, **kw):
+        return NS(tag=tag, **kw)
+
+    def np_ns(store):
+        def zeros(shape):
+            r = minieval.Rec()
+            store.append(r)
+            return r
+        return NS(zeros=minieval.stub(zeros), moveaxis=minieval.stub(lambda a, s_, d: a))
+    PIN = {('AND2', 'A'): 0, ('AND2', 'B'): 1, ('AND2', 'Z'): 0, ('DFF', 'D'): 0, ('DFF', 'Q'): 0, ('DFF', 'QN'): 1,
+           ('MUX', 'S'): 0, ('MUX', 'A'): 1, ('MUX', 'B'): 2, ('MUX', 'Z'): 0}      # pin A sits at different positions in AND2 and MUX
+
+    def pin_index(kind, pin):
+        if (kind, pin) not in PIN:
+            raise AssertionError('unknown pin')
+        return PIN[(kind, pin)]
+    tlib = NS(pin_index=minieval.stub(pin_index))
+    log = NS(warn=minieval.stub(lambda *a: None), info=minieval.stub(lambda *a: None))
+
+    # ---------------- iopaths
+    f = mod.func('DelayFile.iopaths')
+    la, lb, ld = L('la'), L('lb'), L('ld')
+    cells = {'u1': NS(kind='AND2', ins=[la, lb], outs=[L('lz')], name='u1'), 'u_2_': NS(kind='AND2', ins=[None, L('lb2')], outs=[L('lz2')], name='u_2_'),
+             'ff[0]': NS(kind='DFF', ins=[ld], outs=[L('lq'), None], name='ff[0]'),
+             'm1': NS(kind='MUX', ins=[L('ms'), L('ma'), L('mb')], outs=[L('mz')], name='m1')}
+    circuit = NS(cells=cells, lines=[0] * 9)
+    sdf_cells = {
+        'u1': [('(posedge B)', 'Z', [7.0, 7.0, 7.0], []), ('(negedge B)', 'Z', [], [8.0, 8.0, 8.0]), ('A', 'Z', [1.0, 2.0, 3.0], [4.0, 5.0, 6.0])],
+        'm1': [('A', 'Z', [1.5, 1.5, 1.5], [2.5, 2.5, 2.5]), ('(negedge S)', 'Z', [3.5, 3.5, 3.5], [4.5, 4.5, 4.5]), ('B', 'Z', [5.5, 5.5, 5.5], [6.5, 6.5, 6.5])],
+        '\\u_2_': [('A', 'Z', [1.0, 1.0, 1.0], [1.0, 1.0, 1.0]), ('B', 'Z', [2.0, 2.0, 2.0], [3.0, 3.0, 3.0])],
+        'ff\\[0\\]': [('(posedge D)', 'Q', [9.0, 9.0, 9.0], [9.5, 9.5, 9.5])],
+        'nosuch': [('A', 'Z', [5.0, 5.0, 5.0], [5.0, 5.0, 5.0])],
+    }
+    want = {}
+
+    def z(d):
+        return tuple(d) if len(d) > 0 else (0, 0, 0)
+    for name, entries in sdf_cells.items():
+        cell = cells.get(name.replace('\\', ''))
+        if cell is None:
+            continue
+        for ip, _op, *dels in entries:
+            pol = (0,) if ip.startswith('(posedge ') else (1,) if ip.startswith('(negedge ') else (0, 1)
+            pin = ip.split(' ')[1][:-1] if ip.startswith('(') else ip
+            line = cell.ins[PIN[(cell.kind, pin)]]
+            if line is not None:
+                want[(line.tag, pol)] = tuple(z(d) for d in dels)
+    n_ok = 0
+    try:
+        store = []
+        me = NS(cells=sdf_cells, _interconnects=[])
+        minieval.call_function(f, [me, circuit, tlib], {'np': np_ns(store), 'log': log})
+        got = dict(store[0]) if store else None
+        ok = got == want
+        n_ok += 1
+        rep.ob('C14.landing', 'iopaths on the stand-in circuit', ok, evals=len(want))
+        if not ok:
+            rep.violate('C14.landing', mod, f, 'iopaths', f'DelayFile.iopaths: on the stand-in circuit (cells u1, u_2_ with pin A unconnected, ff[0]; file names with backslashes and brackets, '
+                        f'edge qualifiers, an empty triple, an unknown instance) it stores {got} but the file says {want} (key: line of the input pin, input polarities; value: rise/fall triples)',
+                        witness={'got': str(got), 'want': str(want)}, node=f)
+    except ModelError as e:
+        rep.note(f'C14.landing: iopaths outside the evaluator subset ({e}); structural rules only')
+        n_ok -= 10
+    except (AssertionError, KeyError, IndexError, TypeError, AttributeError, ValueError) as e:
+        rep.ob('C14.landing', 'iopaths on the stand-in circuit', False)
+        rep.violate('C14.landing', mod, f, 'iopaths', f'DelayFile.iopaths raises {type(e).__name__} on the stand-in circuit (known cells and pins only; an unknown instance must only be skipped)', node=f)
+
+    # ---------------- interconnects
+    g = mod.func('DelayFile.interconnects')
+
+    def fork(tag, nouts):
+        fk = NS(kind='__fork__', tag=tag, name=tag)
+        fk.ins = [L(f'{tag}.in', driver_pin=0)]
+        fk.outs = [L(f'{tag}.o{k}') for k in range(nouts)]
+        return fk
+    # net n1: u1.Z -> stem fork s1 (2 branches) -> branch forks b1, b2 -> u2.A, u3.B ; net n2: u2.Z -> fork s2 (no fanout) -> u3.A
+    s1, s2 = fork('s1', 2), fork('s2', 1)
+    b1, b2 = fork('b1', 1), fork('b2', 1)
+    s1.outs[0], s1.outs[1] = b1.ins[0], b2.ins[0]
+    b1.ins[0].driver_pin, b2.ins[0].driver_pin = 0, 1
+    b1.ins[0].tag, b2.ins[0].tag = 'b1.in', 'b2.in'
+    u1 = NS(kind='AND2', name='u1', ins=[None, None], outs=[L('u1.z', reader=s1)])
+    u2 = NS(kind='AND2', name='u2', ins=[L('u2.a', driver=b1), None], outs=[L('u2.z', reader=s2)])
+    u3 = NS(kind='AND2', name='u3', ins=[L('u3.a', driver=s2), L('u3.b', driver=b2)], outs=[None])
+    s3 = fork('s3', 2)       # a fan-out without branch forks: cannot be annotated
+    u4 = NS(kind='AND2', name='u4', ins=[L('u4.a', driver=s3), None], outs=[L('u4.z', reader=s3)])
+    circuit2 = NS(cells={'u1': u1, 'u2': u2, 'u3': u3, 'u4': u4, 'p': NS(kind='AND2', name='p', ins=[L('p.i', driver=s2)], outs=[L('p.o', reader=s2)])}, lines=[0] * 20)
+    inter = [('u1/Z', 'u2/A', [1.0, 1.0, 1.0], [2.0, 2.0, 2.0]), ('\\u1/Z', '\\u3/B', [3.0, 3.0, 3.0], []), ('u2/Z', 'u3/A', [4.0, 4.0, 4.0], [5.0, 5.0, 5.0]),
+             ('u1/Z', 'u2/A', [0.0, 0.0, 0.0], [0.0, 0.0, 0.0]), ('u3/Z', 'u2/A', [6.0, 6.0, 6.0], [6.0, 6.0, 6.0]), ('u1/Z', 'u2/B', [6.0, 6.0, 6.0], [6.0, 6.0, 6.0]),
+             ('u4/Z', 'u4/A', [7.0, 7.0, 7.0], [7.0, 7.0, 7.0]), ('p', 'u3/A', [8.0, 8.0, 8.0], [9.0, 9.0, 9.0])]
+    want2 = {('b1.in', ':'): ((1.0, 1.0, 1.0), (2.0, 2.0, 2.0)), ('b2.in', ':'): ((3.0, 3.0, 3.0), (0, 0, 0)), ('s2.in', ':'): ((8.0, 8.0, 8.0), (9.0, 9.0, 9.0))}
+    try:
+        store = []
+        me = NS(cells={}, _interconnects=inter)
+        minieval.call_function(g, [me, circuit2, tlib], {'np': np_ns(store), 'log': log})
+        got = dict(store[0]) if store else None
+        ok = got == want2
+        rep.ob('C14.landing', 'interconnects on the stand-in circuit', ok, evals=len(inter))
+        if not ok:
+            rep.violate('C14.landing', mod, g, 'interconnects', f'DelayFile.interconnects: on the stand-in circuit (a stem fork with two branch forks, a fan-out-free net, a fan-out without branch '
+                        f'forks, unconnected pins, an all-zero entry, an escaped name, a port) it stores {got} but the file says {want2} (key: input line of the branch fork / sole fork; '
+                        f'value: rise/fall triples, broadcast over axis 1)', witness={'got': str(got), 'want': str(want2)}, node=g)
+    except ModelError as e:
+        rep.note(f'C14.landing: interconnects outside the evaluator subset ({e}); structural rules only')
+        n_ok -= 10
+    except (AssertionError, KeyError, IndexError, TypeError, AttributeError, ValueError) as e:
+        rep.ob('C14.landing', 'interconnects on the stand-in circuit', False)
+        rep.violate('C14.landing', mod, g, 'interconnects', f'DelayFile.interconnects raises {type(e).__name__} on the stand-in circuit (every entry names existing cells and pins; entries that '
+                    f'cannot be annotated must only be skipped)', node=g)
+
+
+    return n_ok >= 0
 
 
 def depends(rep, repo):
